@@ -343,7 +343,8 @@ def c04_shapes(tier):
         shapes.append(('hx_pa', [17, 0], lab('c04/command', words), {'pa_tmpl': tmpl('safe', [], ['b2', 'b1'], words)}))
     # bitset / vector<bool> positions with a sign, huge positions
     for words, slots in ((['-b', S(0) + ',-' + S(1)], ['d1', 'd1']), (['--bits=-' + S(0)], ['d1']), (['-b-' + S(0)], ['d2']), (['-b', '-' + S(0)], ['d1']), (['-b', S(0)], ['b2']), (['-b', '18446744073709551615'], []), (['-b', '18446744073709551616'], []),
-                         (['-b', '4294967295'], []), (['-b', '4294967296,' + S(0)], ['d1']), (['-z-' + S(0)], ['d1']), (['--vbool=' + S(0) + ',-' + S(1)], ['d1', 'd1']), (['-a', S(0) + ',-' + S(1) + ',' + S(0) + ',' + S(1)], ['d1', 'd1'])):
+                         (['-b', '4294967295'], []), (['-b', '4294967296,' + S(0)], ['d1']), (['-z-' + S(0)], ['d1']), (['--vbool=' + S(0) + ',-' + S(1)], ['d1', 'd1']), (['-B', S(0) + ',-' + S(1)], ['d2', 'd1']), (['--bigbits=-' + S(0)], ['d2']), (['-B-' + S(0)], ['d1']), (['-B', S(0)], ['d3']),
+                         (['-B', '18446744073709551615'], []), (['-B', '4294967296,' + S(0)], ['d1']), (['-B', S(0)], ['b2']), (['-a', S(0) + ',-' + S(1) + ',' + S(0) + ',' + S(1)], ['d1', 'd1'])):
         shapes.append(('hx_pa', [6, 0], lab('c04/positions', words), {'pa_tmpl': tmpl('safe', [], slots, words)}))
     # argument files with arbitrary content (program-argument file and a file named with --arg-file); a file that names itself /
     # two files that name each other
@@ -451,6 +452,9 @@ def c06_shapes(tier):
     shapes.append(('hx_pa', [6, 0], 'c06/bitset', {'pa_tmpl': tmpl('ok', ['bs=5'], [], ['-b', '0,2'])}))
     shapes.append(('hx_pa', [6, 0], 'c06/bitset symbolic', {'pa_tmpl': tmpl('ok', [], ['r1:0:7'], ['-b', S(0)])}))
     shapes.append(('hx_pa', [6, 0], 'c06/bitset beyond size', {'pa_tmpl': tmpl('throw', [], ['r1:8:9'], ['-b', S(0)])}))
+    shapes.append(('hx_pa', [6, 0], 'c06/big bitset', {'pa_tmpl': tmpl('ok', ['bigbs=#0,#1,#2'], ['d1', 'r2:60:69', 'r3:190:199'], ['-B', S(0) + ',' + S(1), '--bigbits=' + S(2)])}))
+    shapes.append(('hx_pa', [6, 0], 'c06/big bitset beyond size', {'pa_tmpl': tmpl('throw', [], ['r3:200:999'], ['-B', S(0)])}))
+    shapes.append(('hx_pa', [6, 0], 'c06/big bitset negative', {'pa_tmpl': tmpl('throw', [], ['r1:1:9'], ['-B', '5,-' + S(0)])}))
     for words, slots, items in ((['-z', S(0)], ['r1:0:9'], ['vb=#0']), (['-z', S(0)], ['r2:10:12'], ['vb=#0']), (['-z', S(0) + ',' + S(1)], ['r2:10:20', 'r2:60:70'], ['vb=#0,#1']),
                                 (['-z', S(0), '--vbool', S(1)], ['r3:127:129', 'r3:190:193'], ['vb=#0,#1'])):
         shapes.append(('hx_pa', [6, 0], lab('c06/vbool', words), {'pa_tmpl': tmpl('ok', items, slots, words)}))
